@@ -851,6 +851,10 @@ func (g *G) AttesterString(label string) string {
 	if len(m.Atts) > 0 && g.Pct(label+"/existing", 35) {
 		return Pick(g, label+"/ex", m.AttesterList())
 	}
+	if len(m.Atts) > 0 && g.Pct(label+"/extend", 6) {
+		// an entry whose string extends an enabled one (still accepted: the hex decoder keeps the decodable part)
+		return Pick(g, label+"/xe", m.AttesterList()) + Pick(g, label+"/xs", []string{"/01", "/", "00", "/zz", "0"})
+	}
 	if len(m.Atts) > 0 && g.Pct(label+"/respell", 12) {
 		// another spelling of a key that is enabled: an almost-equal registry entry
 		if k := KeyOfSpelling(Pick(g, label+"/rx", m.AttesterList())); k >= 0 {
